@@ -43,6 +43,9 @@ def items(tier, seed):
         its.append((name, 0))
         for r in range(len(lib_roots(st))):
             its.append((name, r + 1))
+    # periodic meshes made by the library: only the state itself (p is not vertex-indexed, so raw relabelling does not apply)
+    for name in ms.periodic_roots(seed):
+        its.append((name, 0))
     return its
 
 
@@ -107,10 +110,11 @@ def work(item, tier, seed):
     name, r = item
     out = Out()
     out.set_item(item)
-    st0 = ms.seeds(seed)[name]
+    periodic = name.startswith('P:')
+    st0 = ms.periodic_roots(seed)[name] if periodic else ms.seeds(seed)[name]
     root = st0 if r == 0 else lib_roots(st0)[r - 1]
     nstates = 0
-    for evn in ms.bfs([(root, budget(root, tier))], ms.raw_transitions, 0):
+    for evn in ms.bfs([(root, 0 if periodic else budget(root, tier))], ms.raw_transitions, 0):
         if evn[0] == 'edge':
             out.transitions += 1
             continue
